@@ -9,6 +9,7 @@ From Coq Require Import ZArith List Bool.
 From HV Require Gen.GenCopies Spec.IsolationSpec Model.IsolationModel Proofs.IsolationProofs.
 From HV Require Base.SmtBV Model.SexpDefs Gen.GenRefine Spec.SmtQuerySpec Model.SmtTextModel Proofs.SmtTextProofs.
 From HV Require Gen.GenDynRoom Proofs.DynRoomProofs Base.Word Gen.GenArithRw Model.ArithRwModel Proofs.ArithRwProofs.
+From HV Require Gen.GenSelectRow Spec.SelectRowSpec Model.SelectRowModel Proofs.SelectRowProofs.
 From HV Require Import Gen.GenPanic Gen.GenRunTest Spec.PanicSpec Model.RunnerModel Proofs.RunnerProofs.
 Import ListNotations.
 Open Scope Z_scope.
@@ -253,3 +254,70 @@ Print Assumptions C03_classify_stuck.
 Theorem C03_stuck_counted : forall r, stuck_counts r = true <-> r <> S_UNSAT.
 Proof. exact stuck_counts_spec. Qed.
 Print Assumptions C03_stuck_counted.
+
+(* READ-OVER-WRITE (Exec.select, the shortcut of every storage read -- both layouts -- and of the balances), over the
+   two decision functions regenerated from its source (Gen/GenSelectRow.v).  The branching solver has a 1 ms budget:
+   `unknown` is an everyday answer.  For EVERY oracle that is sound on `unsat` only (sat and unknown at will), every chain
+   of writes, every key term and every admissible valuation, the term returned evaluates to the value of the newest write
+   at that key (the initial array's value when there is none; an empty array is all zero unless the account is symbolic):
+   a read m[x] after m[3] = 5 never becomes the constant 5, so the branch m[x] == 0 is not pruned. *)
+Theorem C03_read_over_write_is_last_write :
+  forall (P : (nat -> Z) -> Prop) (check : SelectRowSpec.query -> Z),
+    (forall q, check q = 0 \/ check q = 1 \/ check q = 2) ->
+    (forall q, check q = 0 -> forall rho, P rho -> ~ SelectRowSpec.holds rho q) ->
+  forall (symbolic : bool) (init : Z -> Z), (symbolic = false -> forall z, init z = 0) ->
+  forall (chain : list (SelectRowSpec.term * SelectRowSpec.term)) (k : SelectRowSpec.term) (rho : nat -> Z), P rho ->
+    SelectRowModel.ev_res rho init (SelectRowModel.select check symbolic chain k)
+      = SelectRowSpec.last_write rho init chain (SelectRowSpec.ev rho k).
+Proof. exact SelectRowProofs.select_reads_last_write. Qed.
+Print Assumptions C03_read_over_write_is_last_write.
+
+(* the answers the code decides from, as it says now: `unsat` only, for both tests *)
+Theorem C03_read_over_write_decides_on_unsat_only :
+  forall a, (a = 0 \/ a = 1 \/ a = 2) ->
+    (GenSelectRow.select_skip a = true -> a = 0) /\ (GenSelectRow.select_hit a = true -> a = 0).
+Proof.
+  intros a Ha. split; intro H.
+  - exact (SelectRowProofs.select_skip_only_unsat a Ha H).
+  - exact (SelectRowProofs.select_hit_only_unsat a Ha H).
+Qed.
+Print Assumptions C03_read_over_write_decides_on_unsat_only.
+
+(* NECESSITY -- `unknown` (or `sat`) is never a proof: whichever of the two tests says yes on the answer sat or unknown,
+   an oracle that never answers unsat (perfectly legal: it proves nothing) makes a read differ from the last write *)
+Theorem C03_read_over_write_unknown_is_no_proof :
+  forall (skip hit : Z -> bool) a, (a = 1 \/ a = 2) -> (skip a = true \/ hit a = true) ->
+    exists check chain k rho,
+      (forall q, check q = 0 \/ check q = 1 \/ check q = 2) /\
+      (forall q, check q = 0 -> forall rho' : nat -> Z, True -> ~ SelectRowSpec.holds rho' q) /\
+      SelectRowModel.ev_res rho (fun _ => 0) (SelectRowModel.select_with skip hit check false chain k)
+        <> SelectRowSpec.last_write rho (fun _ => 0) chain (SelectRowSpec.ev rho k).
+Proof. exact SelectRowProofs.select_decision_on_non_unsat_refuted. Qed.
+Print Assumptions C03_read_over_write_unknown_is_no_proof.
+
+(* the witness for `check(key != key0) != sat` *)
+Theorem C03_read_over_write_hit_unless_sat_refuted :
+  exists check chain k rho,
+    (forall q, check q = 0 \/ check q = 1 \/ check q = 2) /\
+    (forall q, check q = 0 -> forall rho' : nat -> Z, True -> ~ SelectRowSpec.holds rho' q) /\
+    SelectRowModel.ev_res rho (fun _ => 0)
+        (SelectRowModel.select_with (fun a => a =? 0) (fun a => negb (a =? 1)) check false chain k)
+      <> SelectRowSpec.last_write rho (fun _ => 0) chain (SelectRowSpec.ev rho k).
+Proof. exact SelectRowProofs.select_hit_not_sat_refuted. Qed.
+Print Assumptions C03_read_over_write_hit_unless_sat_refuted.
+
+(* non-vacuity: m[3] = 5 then m[7] = 9 (newest first), read m[x]: under an oracle answering `unknown` to everything the
+   result is the Select on the whole chain (value 5 at x = 3, 9 at x = 7, 0 at x = 4); under a truthful oracle that knows
+   x = 3 the newest store is skipped and the stored 5 is returned *)
+Example C03_read_over_write_nonvacuous :
+  let chain := [(SelectRowSpec.TConst 7, SelectRowSpec.TConst 9); (SelectRowSpec.TConst 3, SelectRowSpec.TConst 5)] in
+  let x := SelectRowSpec.TVar 0 in
+  SelectRowModel.select (fun _ => 2) false chain x = SelectRowModel.RSelect chain x /\
+  SelectRowModel.ev_res (fun _ => 4) (fun _ => 0) (SelectRowModel.select (fun _ => 2) false chain x) = 0 /\
+  SelectRowModel.ev_res (fun _ => 3) (fun _ => 0) (SelectRowModel.select (fun _ => 2) false chain x) = 5 /\
+  SelectRowModel.select (fun q => match q with
+                                  | SelectRowSpec.QEq _ (SelectRowSpec.TConst 7) => 0
+                                  | SelectRowSpec.QNe _ (SelectRowSpec.TConst 3) => 0
+                                  | _ => 1 end) false chain x = SelectRowModel.RVal (SelectRowSpec.TConst 5) /\
+  SelectRowModel.select (fun _ => 0) false [] x = SelectRowModel.RZero.
+Proof. repeat split. Qed.
